@@ -10,7 +10,7 @@ ASSUMPTIONS = ["oracle: dense Python rows and numpy applied per row / per column
                "positive-step slice, negative-step slices with bounds inside the rows, and a non-empty result in every selected row",
                "RunLength2dArray has no max / mean / argmax methods: those are explored on the ragged variant only"]
 REQUIRED_FEATURES = ["variant_2d", "variant_ragged", "variant_ragged_from_matrix", "run_straddles_row_boundary", "single_run_row", "left_operand",
-                     "column_operand", "neg_step_colslice", "from_intervals", "row_mask", "unequal_rows", "narrow_or_float_values", "binary_matrix"]
+                     "column_operand", "neg_step_colslice", "from_intervals", "row_mask", "unequal_rows", "narrow_or_float_values", "binary_matrix", "row_mask_list_of_bools", "matrix_not_c_contiguous"]
 BOUNDS = {"quick": "rows<=2 x len<=3 (+ (5,), (4,5), (5,3)) x 5 run patterns x {RunLength2dArray.from_array, RunLengthRaggedArray.from_ragged_array, "
                    ".from_array} x all listed operations; from_intervals: L<=4, <=2 intervals, 3 value kinds",
           "thorough": "rows<=3 x len<=3 and rows<=2 x len<=5; from_intervals L<=5, <=3 intervals"}
@@ -54,6 +54,10 @@ def cases(shard, tier):
     variants = ["ragged"] + (["2d", "ragged_from_matrix"] if len(set(lens)) == 1 else [])
     for g in ("basic", "red", "col", "elem"):
         yield ["arr", lens, pat, "ragged_from_pending_view", g]
+    if len(set(lens)) == 1:
+        for v in ("2d_fortran", "2d_strided", "ragged_from_matrix_fortran"):
+            for g in ("basic", "red", "col", "elem"):
+                yield ["arr", lens, pat, v, g]
     for v in variants:
         for g in GROUPS:
             if v == "2d" and g in ("colint", "colslice"):
@@ -109,6 +113,15 @@ def _mk(rows, variant, dt=np.int64):
         return RunLengthRaggedArray.from_ragged_array(big[:0:-1])
     if variant == "2d":
         return RunLength2dArray.from_array(np.array(rows, dtype=dt))
+    if variant == "2d_fortran":            # the same matrix in column-major memory (what .T of a C matrix is)
+        return RunLength2dArray.from_array(np.asfortranarray(np.array(rows, dtype=dt)))
+    if variant == "2d_strided":            # ... as a view that skips every other column and row of a larger matrix
+        m = np.array(rows, dtype=dt)
+        big = np.full((2 * m.shape[0], 2 * m.shape[1]), 77, dtype=dt)
+        big[::2, ::2] = m
+        return RunLength2dArray.from_array(big[::2, ::2])
+    if variant == "ragged_from_matrix_fortran":
+        return RunLengthRaggedArray.from_array(np.asfortranarray(np.array(rows, dtype=dt)))
     return RunLengthRaggedArray.from_array(np.array(rows, dtype=dt))
 
 
@@ -139,9 +152,22 @@ def _rowsel(n):
     for m in itertools.product([False, True], repeat=n):
         if any(m):
             yield np.array(m)
+            yield ("lb", list(m))           # the same mask as a plain list of bools
+    for i in range(-n, n):
+        yield np.int64(i)
+    for t in itertools.product(range(-n, n), repeat=2):
+        yield ("ia", list(t))               # integer index array
+
+
+def _sel(rs):
+    if isinstance(rs, tuple):
+        return [bool(b) for b in rs[1]] if rs[0] == "lb" else np.array(rs[1], dtype=np.int64)
+    return rs
 
 
 def _ref_rows(rows, rs):
+    if isinstance(rs, tuple):
+        return [r for r, m in zip(rows, rs[1]) if m] if rs[0] == "lb" else [rows[i] for i in rs[1]]
     if isinstance(rs, (int, np.integer)):
         return rows[rs]
     if isinstance(rs, slice):
@@ -190,6 +216,8 @@ def check(case, acc):
         acc.feature("single_run_row")
     if len(set(lens)) > 1:
         acc.feature("unequal_rows")
+    if variant.endswith("fortran") or variant.endswith("strided"):
+        acc.feature("matrix_not_c_contiguous")
     if any(len(set(r)) > 1 for r in rows):
         acc.nontrivial()
     mk = lambda: _mk(rows, variant, dt)
@@ -201,35 +229,37 @@ def check(case, acc):
         _cmp(acc, "decode", rows, lambda: mk().to_array())
         _cmp(acc, "len", n, lambda: len(mk()))
         _cmp(acc, "shape[0]", n, lambda: mk().shape[0])
-        if variant == "2d":
+        if variant.startswith("2d"):
             _cmp(acc, "shape[1]", lens[0], lambda: int(mk().shape[1]))
         else:
             _cmp(acc, "shape[1]", list(lens), lambda: [int(x) for x in np.broadcast_to(np.asarray(mk().shape[1]), (n,))])
         _cmp(acc, "size", sum(lens), lambda: int(mk().size))
-        if variant != "2d":
+        if (not variant.startswith("2d")):
             _cmp(acc, "ravel", flatv, lambda: mk().ravel())
             _cmp(acc, "concatenate", rows + rows, lambda: np.concatenate([mk(), mk()]))
     elif group == "rowsel":
         for rs in _rowsel(n):
             if isinstance(rs, np.ndarray):
                 acc.feature("row_mask")
-            _cmp(acc, f"rows[{type(rs).__name__}]", _ref_rows(rows, rs), lambda: mk()[rs])
+            if isinstance(rs, tuple) and rs[0] == "lb":
+                acc.feature("row_mask_list_of_bools")
+            _cmp(acc, f"rows[{type(rs).__name__ if not isinstance(rs, tuple) else rs[0]}]", _ref_rows(rows, rs), lambda: mk()[_sel(rs)])
     elif group == "elem":
         for i in range(n):
             for j in range(-lens[i], lens[i]):
                 _cmp(acc, "element", rows[i][j], lambda: mk()[i, j])
     elif group == "red":
-        names = ["sum", "any", "all"] + ([] if variant == "2d" else ["max", "mean", "argmax"])
+        names = ["sum", "any", "all"] + ([] if variant.startswith("2d") else ["max", "mean", "argmax"])
         for name in names:
             e = [getattr(np, name)(a).item() for a in arr]
             _cmp(acc, f"{name}(axis=-1)", e, lambda: getattr(mk(), name)(axis=-1), close=True)
-        if variant != "2d":
+        if (not variant.startswith("2d")):
             for fn in ("sum", "mean", "max"):
                 e = [getattr(np, fn)(a).item() for a in arr]
                 _cmp(acc, f"np.{fn}(axis=-1)", e, lambda: getattr(np, fn)(mk(), axis=-1), close=True)
     elif group == "col":
         _cmp(acc, "sum(axis=0)", [sum(c) for c in cols], lambda: mk().sum(axis=0), close=(vk == "f8"))
-        if variant != "2d":
+        if (not variant.startswith("2d")):
             _cmp(acc, "mean(axis=0)", [float(np.mean(c)) for c in cols], lambda: mk().mean(axis=0), close=True)
             _cmp(acc, "col_counts", [len(c) for c in cols], lambda: mk().col_counts())
         else:
